@@ -370,6 +370,32 @@ Proof.
     destruct (lex_cmp (fst (transform (KCompound s) a)) e); apply seq_bridge; apply HW.
 Qed.
 
+Lemma range_codec : forall enc dec st cs a b ans, rep st cs -> (forall l, In l cs -> lgk l = ltk l) ->
+  do_range (KCodec enc dec) st a b ans = ideal_range (KCodec enc dec) cs a b ans.
+Proof.
+  intros enc dec st cs a b ans Hrep Hgk.
+  pose proof (fun gs ge => range_walk_api st cs gs ge ans Hrep Hgk) as HW.
+  destruct (rep_cases _ _ Hrep) as [[[Er Ec]|(t & Er & Hwf & Hl)] Hs].
+  - subst cs. unfold do_range, ideal_range. rewrite Er. reflexivity.
+  - unfold do_range, ideal_range. rewrite Er in *.
+    destruct cs as [|c0 cs0]; [exfalso; exact (WF_nonempty _ _ Hwf Hl)|].
+    cbv zeta. rewrite (maximum_spec 0 t Hwf), Hl.
+    remember (c0 :: cs0) as cs eqn:Ecs. clear Ecs.
+    assert (Ee : match option_map to_leaf (hd_error (rev cs)) with
+                 | Some l => fst (transform (KCodec enc dec) (restore (KCodec enc dec) l)) | None => [] end =
+                 match hd_error (rev cs) with
+                 | Some l => fst (transform (KCodec enc dec) (restore (KCodec enc dec) (to_leaf l)))
+                 | None => [] end).
+    { destruct (hd_error (rev cs)) as [l|]; reflexivity. }
+    rewrite Ee.
+    set (e := if (length (fst (transform (KCodec enc dec) b)) =? 0)%nat
+              then match hd_error (rev cs) with
+                   | Some l => fst (transform (KCodec enc dec) (restore (KCodec enc dec) (to_leaf l)))
+                   | None => [] end
+              else fst (transform (KCodec enc dec) b)).
+    destruct (lex_cmp (fst (transform (KCodec enc dec) a)) e); apply seq_bridge; apply HW.
+Qed.
+
 Definition is_num (k : kind) : bool :=
   match k with KUnsigned _ | KSigned _ | KFloat _ => true | _ => false end.
 
@@ -513,7 +539,7 @@ Proof.
     cbn [fst snd]. split; [|auto].
     assert (Hgk : k <> KCollation -> forall l, In l cs -> lgk l = ltk l).
     { intros Hk. eapply stored_same; eauto. }
-    destruct k as [|w|w|w| |s] eqn:Ek.
+    destruct k as [|w|w|w| |s|enc dec] eqn:Ek.
     + apply range_alpha; [exact Hrep|apply Hgk; discriminate].
     + cbn [probe_keys map forallb] in Hprobe. apply andb_true_iff in Hprobe. destruct Hprobe as [Hpr _].
       eapply range_num; eauto. apply Hgk; discriminate.
@@ -523,9 +549,10 @@ Proof.
       eapply range_num; eauto. apply Hgk; discriminate.
     + cbn [op_ok] in Hop. discriminate.
     + apply range_compound; [exact Hrep|apply Hgk; discriminate].
+    + apply range_codec; [exact Hrep|apply Hgk; discriminate].
   - (* Prefix *)
     cbn [fst snd]. split; [|auto].
-    destruct k as [|w|w|w| |s] eqn:Ek; try reflexivity.
+    destruct k as [|w|w|w| |s|enc dec] eqn:Ek; try reflexivity.
     + eapply prefix_alpha; eauto.
     + apply prefix_collation. exact Hrep.
 Qed.
